@@ -342,6 +342,18 @@ func runPairs(r *engine.Run) {
 	h.finish("pairs")
 }
 
+// runNoIn: the NoIn matrix (C03's generator) from the reject side: an `in`
+// that ES5 does not admit in the first clause of a for header must be rejected.
+func runNoIn(r *engine.Run) {
+	h := newHarness(r, 64)
+	c03.NoInTexts(func(key, src string) {
+		if mine(r, key) {
+			h.one(key, src)
+		}
+	})
+	h.finish("noin")
+}
+
 // runLiterals: numeric and string literal spellings, valid or not.
 func runLiterals(r *engine.Run) {
 	h := newHarness(r, 256)
